@@ -100,6 +100,48 @@ theorem write_conv_output_readable (f : WriteFlags) (attrs : List RawAttr) (cs :
   obtain ⟨i0, hi0, rfl⟩ := List.mem_map.mp hi
   exact modifyCmt_valid i0 (decoded_all_valid rs is h1 hdeg i0 hi0)
 
+/-- the flag overrides are idempotent: applying them to an instance that already carries them changes nothing -/
+theorem override_idem (f : WriteFlags) (i i' : Instance) (h : overrideFromFlags f i = .ok i') :
+    overrideFromFlags f i' = .ok i' := by
+  unfold overrideFromFlags at h ⊢
+  simp only [bind, Except.bind, pure, Except.pure, throw, throwThe, MonadExceptOf.throw] at h ⊢
+  repeat' split at h
+  all_goals (first | cases h | skip)
+  all_goals simp_all
+
+/-- preparing an already prepared piece with the same flags gives the same piece -/
+theorem prepare_idem (f : WriteFlags) (is is' : List Instance) (d : Dict) (n : Nat)
+    (h : prepareWrite f is = .ok (d, n, is')) : prepareWrite f is' = .ok (d, n, is') := by
+  unfold prepareWrite at h ⊢
+  simp only [bind, Except.bind, pure, Except.pure, throw, throwThe, MonadExceptOf.throw] at h ⊢
+  repeat' split at h
+  all_goals (first | cases h | skip)
+  · repeat' split
+    all_goals simp_all
+  · have := override_idem f _ _ (by assumption)
+    simp only [this]
+    repeat' split
+    all_goals simp_all
+
+/-- **`write conv | write` sounds the prepared piece**: piping what `write conv` printed into `write` with the
+same flags and dictionaries gives the same tracks as writing the decoded input with the `cmt` texts added - the
+intermediate YAML changes nothing -/
+theorem write_conv_then_write (f : WriteFlags) (attrs : List RawAttr) (cs : List String)
+    (rs out : List RawInstance) (h : cmdWriteConv f attrs cs rs = .ok out)
+    (hdeg : ∀ r ∈ rs, ∀ c, r.chord = some c → c.degree.isSome = true) (hb : goUint f.bpm) :
+    ∃ is as, rs.mapM decodeInstance = .ok is ∧ loadAttrs attrs = .ok as ∧
+      cmdWrite f attrs out =
+        (cmdWriteTracks { f with userAttrs := as } (is.map modifyCmt)).bind fun ts =>
+          match smfEncode Generated.ticksPerQuarter ts with
+          | some b => .ok b
+          | none => .error .unexpected := by
+  obtain ⟨is, as, d, n, is2, h1, h2, h3, h4⟩ := write_conv_output_readable f attrs cs rs out h hdeg hb
+  refine ⟨is, as, h1, h2, ?_⟩
+  have h5 := prepare_idem _ _ _ _ _ h3
+  unfold cmdWrite cmdWriteTracks
+  simp only [bind, Except.bind, pure, Except.pure, h4, h2, h3, h5]
+  rfl
+
 /-- reading it again and printing it again changes nothing: `write conv` without further flags is idempotent on
 its own output (the `cmt` text is added once more, nothing else moves) - stated for the empty flag set and the
 rest-only case to keep it a one-liner; the general statement is `write_conv_output_readable` -/
